@@ -4,6 +4,7 @@
   Model: `Jence.scratchKey` (`Game::make_zobrist_hash`), `Jence.nullMoveOf` (the null-move block of `negamax`).
 -/
 import Jence.Model.Search
+import Jence.Lemmas.History
 namespace Jence.Props.C04
 open Jence
 
@@ -41,5 +42,24 @@ theorem null_move_key (g : Game) (h : g.key = scratchKey g) : (nullMoveOf g).key
   · cases hw : g.white <;> simp [hep]
     · exact xor_swap_cancel _ _ _
     · exact xor_mid_cancel _ _ _
+
+/-- **T4.1** One move: in a consistent position (`Wf`, see C02) in which no capture aims at the enemy king, making
+    any generated move - castling, en passant, promotion, capture on a rook's home square with an en-passant square
+    pending, any combination - keeps the incrementally maintained key equal to the key computed from scratch. -/
+theorem made_move_key (g g' : Game) (b : Board) (m : Move) (all : Bool) (wf : Wf g b) (nk : NoKingCapture g)
+    (hm : m ∈ generateMoves g all) (hkey : g.key = scratchKey g) (hmk : makeCore g m = some g') :
+    g'.key = scratchKey g' :=
+  makeCore_wf_key g g' m b wf (gen_fits wf nk all m hm) hkey hmk
+
+/-- **T4.1, histories** After any sequence of generated moves from a consistent position whose key is right, the
+    maintained key is the from-scratch key of the position reached. -/
+theorem history_key (g0 g : Game) (b0 : Board) (ms : List Move) (wf : Wf g0 b0) (hp : GoodPath g0 ms)
+    (hkey : g0.key = scratchKey g0) (hplay : playAll g0 ms = some g) : g.key = scratchKey g :=
+  (history_wf ms g0 g b0 wf hp hplay).2 hkey
+
+/-- the key update alone needs less than consistency: `MoveOk` (the squares the move touches hold what its fields
+    claim) suffices, for any move word -/
+theorem moveOk_key (g g' : Game) (m : Move) (hkey : g.key = scratchKey g) (ok : MoveOk g m) (hmk : makeCore g m = some g') :
+    g'.key = scratchKey g' := makeCore_key g g' m hkey ok hmk
 
 end Jence.Props.C04
